@@ -16,6 +16,8 @@ EXTENDS Gen_Layout
 CONSTANTS WithPairs
 
 Ones == "ffffffffffffffffffffffffffffffff"
+(* wrong root names: unrelated, differing only in case, a prefix, an extension *)
+WrongRootNames == <<"Foobar", "ROOT ENTRY", "root entry", "Root entry", "Root Entr", "Root Entry2", "R">>
 
 AllocSlots(l) == {i \in 1..Len(l.slots) : l.slots[i].type # 0}
 StreamSlots(l) == {i \in AllocSlots(l) : l.slots[i].type = 2}
@@ -31,7 +33,7 @@ Singles(l) ==
         THEN {[kind |-> "minifat_long", grp |-> "alloc", at |-> 0, val |-> 0]} ELSE {})
   \cup {[kind |-> "red_red", grp |-> "dir", at |-> e, val |-> 0] : e \in SibEdges(l)}
   \cup {[kind |-> "unterminated", grp |-> "dir", at |-> i, val |-> 0] : i \in AllocSlots(l)}
-  \cup {[kind |-> "root_name", grp |-> "dir", at |-> 1, val |-> 0]}
+  \cup {[kind |-> "root_name", grp |-> "dir", at |-> 1, val |-> v] : v \in 1..Len(WrongRootNames)}
   \cup {[kind |-> k, grp |-> "dir", at |-> i, val |-> 0] : k \in {"stream_clsid", "stream_ctime", "stream_mtime"}, i \in StreamSlots(l)}
   \cup {[kind |-> "storage_start", grp |-> "dir", at |-> i, val |-> v] : i \in StorageSlots(l), v \in {5, ENDC, FREE}}
   \cup {[kind |-> "storage_size", grp |-> "dir", at |-> i, val |-> 77] : i \in StorageSlots(l)}
@@ -50,7 +52,7 @@ Apply(l, d) ==
     [] d.kind = "minifat_long"    -> [l EXCEPT !.minifat = Append(@, ENDC)]
     [] d.kind = "red_red"         -> [l EXCEPT !.slots[d.at[1]].color = 0, !.slots[d.at[2]].color = 0]
     [] d.kind = "unterminated"    -> [l EXCEPT !.slots[d.at] = [unterminated |-> TRUE] @@ @]
-    [] d.kind = "root_name"       -> [l EXCEPT !.slots[1] = [rawname |-> "Foobar"] @@ @]
+    [] d.kind = "root_name"       -> [l EXCEPT !.slots[1] = [rawname |-> WrongRootNames[d.val]] @@ @]
     [] d.kind = "stream_clsid"    -> [l EXCEPT !.slots[d.at].clsid = Ones]
     [] d.kind = "stream_ctime"    -> [l EXCEPT !.slots[d.at].ct = <<27, 5, 9>>]
     [] d.kind = "stream_mtime"    -> [l EXCEPT !.slots[d.at].mt = <<0, 0, 1>>]
